@@ -12,11 +12,11 @@ from vlib.lab import Lab
 PROPERTY_ID = "C12"
 LEVEL = "exploration"
 RULE = (
-    "Generated: 1-4 (thorough 1-5) inner traced sources (cold / synchronous / hot / leaky = keeps pushing after it was unsubscribed, the "
+    "Generated: 1-4 (thorough 1-5) inner traced sources (cold / synchronous / hot / subject = hot backed by a real Subject whose late subscribers get its terminal at once / leaky = keeps pushing after it was unsubscribed, the "
     "only way to present a stale inner's notification in a single-threaded run; 0-4 (thorough 0-6) distinct ints each, gaps 0-3, terminal "
     "completion / error / none) and an outer timeline (cold / synchronous / hot, 0-5 (thorough 0-7) elements selecting inners, terminal "
     "completion / error / none); forms switch_latest, switch_map (mapper and default-identity forms), switch_map_indexed, "
-    "flat_map_latest; subscribed at a generated tick on the virtual scheduler. Oracle: an independent discrete-event "
+    "flat_map_latest; subscribed at a generated tick on the virtual scheduler (TestScheduler; one case in five on a HistoricalScheduler with 1 ms ticks). Oracle: an independent discrete-event "
     "reference (plain Python, own priority queue) of 'forward only the latest inner' gives the exact expected trace "
     "(elements, ticks, terminal: completion only once the outer completed and the latest inner completed, error of the "
     "current inner or of the outer terminates, a stale inner's notifications - incl. its error and completion - are "
@@ -28,6 +28,7 @@ RULE = (
     "overlapping it - and both probes are judged by the same oracle with their own subscribe tick. Non-trivial: >= 1 inner was cut short by a successor."
 )
 ASSUMPTIONS = [
+    "a Subject-backed inner (kind subject) delivers its terminal at once to a subscriber that arrives after, or during the dispatch of, that terminal (documented Subject behaviour)",
     "inner sources are conforming; 'leaky' inners ignore disposal for emission (they log the unsubscribe) and bypass AutoDetachObserver",
     "subscriptions opened after the output already terminated (a synchronous outer still unwinding) are not judged here (C02/C03)",
     "mapper functions are total and pure (C09 covers raising mappers)",
@@ -111,7 +112,7 @@ def _run(case):
     if sec:
         ref = simulate(case["outer"], case["inners"], _resolver(case), t0, "fifo", "switch")
         mode2, t2 = second_tick(sec, t0, ref.term[0] if ref.term else None)
-    lab = Lab()
+    lab = Lab("hist", tick_s=0.001) if case.get("clock") == "hist" else Lab()
     inners = [TSource(lab, spec, f"i{i}") for i, spec in enumerate(case["inners"])]
     o = build(case, lab, inners)
     p = lab.probe()
@@ -160,7 +161,12 @@ def _run(case):
         if chosen is None:
             chosen = got_ok
     pol, op = chosen
-    cls = [form, "policy:" + pol]
+    cls = [form, "policy:" + pol, "clock:" + case.get("clock", "test")]
+    ssrc = [x for x in op.inners if x.kind == "subject" and x.handles]
+    if ssrc:
+        cls.append("subject-inner")
+        if any(x.late_subs for x in ssrc):
+            cls.append("subject-inner:late-subscriber-gets-terminal")
     if sec:
         cls.append("2nd-subscription:" + mode2 + ("" if separable or mode2 == "overlap" else "(first-still-running)"))
         if p2.events:
@@ -185,7 +191,7 @@ def _run(case):
     for a in started:
         if a["cut"] is not None:
             tl = case["inners"][a["src"]]["tl"]
-            off = 0 if case["inners"][a["src"]]["kind"] == "hot" else a["sub"]
+            off = 0 if case["inners"][a["src"]]["kind"] in ("hot", "subject") else a["sub"]
             nxt = op.arrivals[a["cut"]]["arr"]
             if any(t + off == nxt for t, _, _ in tl):
                 cls.append("tie:inner-event-at-switch-instant")
@@ -197,14 +203,17 @@ def _run(case):
     return OK(cuts >= 1, cls)
 
 
-_KINDS = ("cold", "cold", "sync", "hot", "leaky", "cold")
+_KINDS = ("cold", "cold", "sync", "hot", "leaky", "cold", "subject")
 
 
 @st.composite
 def _cases(draw, big=False):
     inn = draw(inner_specs(max_inners=5, max_len=6, kinds=_KINDS) if big else inner_specs(kinds=_KINDS))
     form = draw(st.sampled_from(FORMS))
-    return draw_second(draw, {"form": form, "inners": inn, "t0": draw(st.integers(0, 3)), "outer": draw_outer(draw, len(inn), max_len=7 if big else 5)})
+    c = draw_second(draw, {"form": form, "inners": inn, "t0": draw(st.integers(0, 3)), "outer": draw_outer(draw, len(inn), max_len=7 if big else 5)})
+    if draw(st.integers(0, 4)) == 0:
+        c["clock"] = "hist"
+    return c
 
 
 def checks(tier):
